@@ -277,6 +277,9 @@ pub fn check(s: &Session, h: &History, stats: &mut Stats) -> Option<Violation> {
     for (i, p) in s.ops.iter().enumerate() {
         match &p.op {
             Op::Open { uri, text } => {
+                if crate::lsp::has_lone_cr(text) {
+                    return None; // outside the property's quantifier (LF / CRLF only)
+                }
                 models.insert(uri.clone(), DocModel { text: text.clone() });
                 let mut t = vec!["open".to_string()];
                 t.extend(p.tags.iter().cloned());
@@ -285,8 +288,8 @@ pub fn check(s: &Session, h: &History, stats: &mut Stats) -> Option<Violation> {
             Op::Change { uri, edits } => {
                 if let Some(m) = models.get_mut(uri) {
                     for e in edits {
-                        if m.apply(e).is_err() {
-                            // not a C13 history (ranges must be valid); nothing to say
+                        if m.apply(e).is_err() || crate::lsp::has_lone_cr(&m.text) {
+                            // not a C13 history (ranges must be valid, breaks LF / CRLF)
                             return None;
                         }
                         stats.edits_applied += 1;
